@@ -3,16 +3,36 @@
    against Decimal.tla (two's-complement limb vectors, least significant limb first; a copy of spec/text/Decimal.tla).
    A Variant given a 32- or 64-bit integer reports that alternative, its decimal text is the canonical decimal text of
    the value (signed for int / int64, unsigned for uint / uint64) through the const and the mutable string accessor,
-   toInt64 / toUInt64 return the value (the same bit pattern), and it equals its copy.                              *)
+   toInt64 / toUInt64 return the value (the same bit pattern), toDouble returns the value rounded to 53 significant
+   bits, ties to even (the driver logs the double as sign + exact integer magnitude in five limbs), and it equals
+   its copy.                                                                                                        *)
 EXTENDS Decimal, Json, IOUtils, TLC
 VARIABLES l, nbad
 T == ndJsonDeserialize(IOEnv.TRACE)
 Signed(k) == k \in {"i32", "i64"}
+\* toDouble (round 7): bit i (1 = least significant) of a limb vector, the double nearest to an integer magnitude
+Bit(vv, i) == (vv[((i - 1) \div 16) + 1] \div (2 ^ ((i - 1) % 16))) % 2
+BitsOf(vv) == [i \in 1..(16 * Len(vv)) |-> Bit(vv, i)]
+Top(b) == IF \A i \in 1..Len(b) : b[i] = 0 THEN 0 ELSE CHOOSE i \in 1..Len(b) : b[i] = 1 /\ \A j \in (i + 1)..Len(b) : b[j] = 0
+IncAt(b, p) == LET j == CHOOSE j \in p..Len(b) : b[j] = 0 /\ \A m \in p..(j - 1) : b[m] = 1
+               IN [i \in 1..Len(b) |-> IF i < p THEN b[i] ELSE IF i < j THEN 0 ELSE IF i = j THEN 1 ELSE b[i]]
+RoundDouble(b) ==
+  LET n == Top(b) IN
+  IF n <= 53 THEN b
+  ELSE LET k == n - 53
+           up == b[k] = 1 /\ ((\E i \in 1..(k - 1) : b[i] = 1) \/ b[k + 1] = 1)
+           tr == [i \in 1..Len(b) |-> IF i <= k THEN 0 ELSE b[i]]
+       IN IF up THEN IncAt(tr, k + 1) ELSE tr
+Mag(e) == IF Signed(e.kind) /\ IsNeg(e.v) THEN Negate(e.v) ELSE e.v
+DoubleOk(e) == /\ e.dint
+               /\ e.dneg = (Signed(e.kind) /\ IsNeg(e.v))
+               /\ BitsOf(e.dabs) = RoundDouble(BitsOf(Mag(e) \o <<0>>))
 Why(e) ==
   IF e.ty # e.kind THEN "type"
   ELSE IF e.txt # ToDecimal(e.v, Signed(e.kind)) THEN "text"
   ELSE IF e.mtxt # e.txt THEN "mutable-text"
   ELSE IF e.i64 # e.v \/ e.u64 # e.v THEN "conversion"
+  ELSE IF ~DoubleOk(e) THEN "double"
   ELSE IF ~e.eq THEN "copy-equality"
   ELSE "ok"
 TInit == l = 1 /\ nbad = 0
